@@ -424,6 +424,9 @@ def check_C17(lines, obs):
     """after every compute: the results equal those of a freshly built stock with the same inputs"""
     prev = None
     for ln, ob in zip(lines, obs):
+        if ln == "note failed_set_prms_changes_nothing" and ob != "ok":
+            return fail(ln, "a set_prms call that raises leaves the lifetime model as it was (the next recompute reflects the "
+                            "current parameters: the old ones)", "parameters unchanged", ob)
         if ln == "note recompute_equals_fresh_at_low_survival" and ob != "ok":
             return fail(ln, "results of a recompute equal those of a freshly built stock with the same parameters and driver "
                             "(also where a cohort does not survive its first interval)", "the fresh results", ob)
